@@ -16,7 +16,11 @@ static void ghost_sha_setup(const IN_gh *g) {
 }
 /* case split of the update units over "buffered + new length fits 32 bits" (variants in the json): together the
  * two variants cover every len; the split only separates the attribution of the >= 4 GiB single-update wrap */
-#if defined(VERIF_LEN_FITS)
+#if defined(VERIF_LEN_FITS) && defined(VERIF_CASE_NOBLOCK)      /* no block completes */
+#define LEN_CASE(ol, len) V_ASSUME((g_u64)(ol) + (g_u64)(len) < VERIF_BS)
+#elif defined(VERIF_LEN_FITS) && defined(VERIF_CASE_BLOCKS)     /* at least one block completes */
+#define LEN_CASE(ol, len) V_ASSUME((g_u64)(ol) + (g_u64)(len) <= 0xffffffffull && (g_u64)(ol) + (g_u64)(len) >= VERIF_BS)
+#elif defined(VERIF_LEN_FITS)
 #define LEN_CASE(ol, len) V_ASSUME((g_u64)(ol) + (g_u64)(len) <= 0xffffffffull)
 #elif defined(VERIF_LEN_WRAPS)
 #define LEN_CASE(ol, len) V_ASSUME((g_u64)(ol) + (g_u64)(len) > 0xffffffffull)
@@ -36,8 +40,10 @@ void h_sha256_update(void) {
     sha256_update(c, m, in.len);
 #ifdef VERIF_LEN_WRAPS
     V_COVER(in.c.len == 1 && in.len == 0xffffffffu); V_COVER(in.c.len == 63);
+#elif defined(VERIF_CASE_NOBLOCK)
+    V_COVER(g_tb_total == in.g.tb_total && in.c.len > 0 && in.len > 0); V_COVER(in.len == 0); V_COVER(c->len == 5 && in.c.len == 2);
 #else
-    V_COVER(g_tb_total == in.g.tb_total); V_COVER(g_tb_total == in.g.tb_total + 1 && in.c.len > 0); V_COVER(g_tb_total == in.g.tb_total + 3 && c->len == 5);
+    V_COVER(g_tb_total == in.g.tb_total + 1 && in.c.len > 0); V_COVER(g_tb_total == in.g.tb_total + 3 && c->len == 5);
     V_COVER(g_tby_seen == in.g.tby_seen + 1 && in.len > 200);
 #endif
 }
@@ -77,8 +83,10 @@ void h_sha512_update(void) {
     sha512_update(c, m, in.len);
 #ifdef VERIF_LEN_WRAPS
     V_COVER(in.c.len == 1 && in.len == 0xffffffffu); V_COVER(in.c.len == 63);
+#elif defined(VERIF_CASE_NOBLOCK)
+    V_COVER(g_tb_total == in.g.tb_total && in.c.len > 0 && in.len > 0); V_COVER(in.len == 0); V_COVER(c->len == 5 && in.c.len == 2);
 #else
-    V_COVER(g_tb_total == in.g.tb_total); V_COVER(g_tb_total == in.g.tb_total + 1 && in.c.len > 0); V_COVER(g_tb_total == in.g.tb_total + 3 && c->len == 5);
+    V_COVER(g_tb_total == in.g.tb_total + 1 && in.c.len > 0); V_COVER(g_tb_total == in.g.tb_total + 3 && c->len == 5);
     V_COVER(g_tby_seen == in.g.tby_seen + 1 && in.len > 200);
 #endif
 }
